@@ -457,6 +457,15 @@ def _fold_funcs(facts):
                         if (aa is not None and aa['k'] == 'DeclRefExpr' and aa.get('id') in be_vars) or \
                                 any(is_call(x, cq=Y + 'thread_info::get_begin_epoch') for x in g.walk(a)):
                             fold_blocks.add(b)
+                # an accumulator that simply takes a begin epoch (`acc = x`) is a place where the value that will be
+                # published is formed, too (whether it is a minimum is R-MIN's question)
+                if nd['k'] == 'BinaryOperator' and nd.get('op') == '=':
+                    l = g.strip(g.ch(nd)[0], casts=True)
+                    r = g.strip(g.ch(nd)[1], casts=True)
+                    if l is not None and l['k'] == 'DeclRefExpr' and l.get('dk') == 'var' and l.get('id') not in be_vars \
+                            and r is not None and r['k'] == 'DeclRefExpr' and r.get('id') in be_vars and \
+                            'unsigned long' in (l.get('ty') or ''):
+                        fold_blocks.add(b)
         if fold_blocks:
             out.append((g, be_vars, fold_blocks))
     return et, out
@@ -470,8 +479,35 @@ def rule_min(S):
                     'folding it in publishes gc epoch 0 - 1 = UINT64_MAX); the idle case publishes current epoch - k')
     _, folds = _fold_funcs(facts)
     total = 0
-    for f, be_vars, _ in folds:
+    for f, be_vars, fold_blocks in folds:
         total += _rule_min_in(S, facts, f, be_vars)
+        # the accumulator is a minimum over the WHOLE table: it takes a begin epoch only through std::min (or under the
+        # test that the new value is smaller), and the walk is left only when the table is exhausted
+        from yk.flow import natural_loops
+        plain = []
+        for b in sorted(fold_blocks):
+            for e in f.blocks[b].elems:
+                nd = f.node(e)
+                if nd['k'] == 'BinaryOperator' and nd.get('op') == '=':
+                    r = f.strip(f.ch(nd)[1], casts=True)
+                    if r is not None and r['k'] == 'DeclRefExpr' and r.get('id') in be_vars:
+                        plain.append(nd)
+        for nd in plain:
+            total += 1
+            S.ob('R-MIN', f.qname, 'accumulator update at ' + short_loc(nd), False,
+                 'the value that will be published takes a begin epoch without comparing it with what was found so far: '
+                 'it is the begin epoch of one slot, not the minimum over the table', loc=short_loc(nd))
+        loops = natural_loops(f)
+        for b in sorted(fold_blocks):
+            inner = [(len(body), h, body) for h, body in loops.items() if b in body]
+            if not inner:
+                continue
+            _, h, body = min(inner)
+            early = [(x, t) for x in body if x != h for t in f.blocks[x].succ if t is not None and t not in body]
+            S.ob('R-MIN', f.qname, 'walk at block %s covers the whole table' % h, not early,
+                 'the walk is left only when the table is exhausted' if not early else
+                 'the walk over the session table can be left before every slot was looked at (break / return inside '
+                 'the loop): sessions in the remaining slots are not counted', loc=f.loc)
     S.require('R-MIN', 'minimum folds over begin epochs', total, 1)
 
 
@@ -552,7 +588,19 @@ def rule_walk(S):
                                 body.add(pb)
                                 work.append(pb)
                     loops.append((h, body))
+        # the walk = the innermost loop around the LOAD of the begin epoch that is folded (the fold itself may sit in a
+        # block that leaves the loop)
+        be_all = {v['id'] for n_ in f.all_nodes() if n_['k'] == 'DeclStmt' for v in n_.get('vars', [])
+                  if 'init' in v and any(is_call(x, cq=Y + 'thread_info::get_begin_epoch') for x in f.walk(v['init']))}
+        folded = set()
         for fb in fold_blocks:
+            for e in f.blocks[fb].elems:
+                for x in f.walk(f.node(e)):
+                    if x['k'] == 'DeclRefExpr' and x.get('id') in be_all:
+                        folded.add(x['id'])
+        load_blocks = {b_ for b_, blk_ in f.blocks.items() for e in blk_.elems
+                       if f.node(e)['k'] == 'DeclStmt' and any(v['id'] in folded for v in f.node(e).get('vars', []))}
+        for fb in (load_blocks or fold_blocks):
             inner = [(len(body), h) for h, body in loops if fb in body]
             if not inner:
                 raise AnalysisBroken('R-WALK: the fold at block %s is not inside a loop' % fb)
